@@ -31,19 +31,21 @@ WIDGETS = dict(group='kopf.dev', version='v1', plural='kopfwidgets', kind='KopfW
 
 
 def rnd_desc(rng: random.Random, i: int) -> dict[str, Any]:
+    all_filtered = rng.random() < 0.25      # every index of the kind is filtered: an object can stop matching ALL of them at once
     handlers: list[dict[str, Any]] = [
-        {'kind': 'index', 'id': 'i1', 'index_rule': {'mode_field': 'm1', 'delay': 2.0}},
+        {'kind': 'index', 'id': 'i1', 'index_rule': {'mode_field': 'm1', 'delay': 2.0}, 'opts': {'labels': {'l': 'a'}} if all_filtered else {}},
         {'kind': 'event', 'id': 'ev'},
         {'kind': 'create', 'id': 'c1'}, {'kind': 'update', 'id': 'u1'},
     ]
     if rng.random() < 0.6:
-        handlers.append({'kind': 'index', 'id': 'i2', 'index_rule': {'mode_field': 'm2', 'delay': 0.5}, 'opts': {'labels': {'l': 'a'}} if rng.random() < 0.6 else {}})
-    if rng.random() < 0.3:
+        handlers.append({'kind': 'index', 'id': 'i2', 'index_rule': {'mode_field': 'm2', 'delay': 0.5}, 'opts': {'labels': {'l': 'a'}} if all_filtered or rng.random() < 0.6 else {}})
+    if rng.random() < 0.3 and not all_filtered:
         handlers.append({'kind': 'index', 'id': 'i3', 'index_rule': {'mode_field': 'm1'}, 'opts': {'errors': rng.choice(['temporary', 'permanent']), 'backoff': 1.5}})
     two_kinds = rng.random() < 0.5
     if two_kinds:
         handlers.append({'kind': 'index', 'id': 'iw', 'resource': 'kopfwidgets', 'index_rule': {'mode_field': 'm1'}})
         handlers.append({'kind': 'event', 'id': 'evw', 'resource': 'kopfwidgets'})
+        handlers.append({'kind': 'create', 'id': 'cw', 'resource': 'kopfwidgets'})
     if rng.random() < 0.3:
         handlers.append({'kind': 'timer', 'id': 'tm', 'opts': {'interval': 2.0}})
     names = [f'o{k}' for k in range(rng.randint(2, 6))]
@@ -93,7 +95,13 @@ def rnd_desc(rng: random.Random, i: int) -> dict[str, Any]:
     if two_kinds and pre and rng.random() < 0.7:
         # the initial listing of one indexed kind is much slower than the other
         slow = rng.choice(['kopfwidgets', 'kopfexamples'])
-        desc['faults'] = [{'client': 'op1', 'match': {'kind': 'list', 'plural': slow}, 'nth': 1, 'actions': [['latency', {'delay': rng.choice([1.0, 3.0, 5.0])}]]}]
+        delay = rng.choice([1.0, 3.0, 5.0])
+        desc['faults'] = [{'client': 'op1', 'match': {'kind': 'list', 'plural': slow}, 'nth': 1, 'actions': [['latency', {'delay': delay}]]}]
+        if rng.random() < 0.7:
+            # a NEW object of the already listed kind appears while the other kind is still being listed: its handlers must wait too
+            fast = 'kopfexamples' if slow == 'kopfwidgets' else 'kopfwidgets'
+            desc['timeline'].append([round(t_start + delay * rng.choice([0.3, 0.5, 0.8]), 3), 'create' if fast == 'kopfexamples' else 'create@kopfwidgets', 'late0' if fast == 'kopfexamples' else 'wlate0', body('late0')])
+            desc['timeline'].sort(key=lambda x: x[0])
     return desc
 
 
@@ -288,16 +296,20 @@ def run_case(case: dict[str, Any]) -> dict[str, Any]:
     t_ready = 0.0
     pending: set[tuple[str, str]] = set()
     listed: dict[str, set[str]] = {}
+    list_rv: dict[str, int] = {}
     for pl in kinds:
         lists = [r for r in w.requests if r.client == inc and r.kind == 'list' and r.plural == pl and r.status == 200]
         if not lists:
             continue
         t_ready = max(t_ready, lists[0].t_done)
         rv = int(lists[0].result_rv)
+        list_rv[pl] = rv
         listed[pl] = {uid for uid, vs in w.history.items() if vs[0]['plural'] == pl and [v for v in vs if v['rv'] <= rv] and [v for v in vs if v['rv'] <= rv][-1]['type'] != 'DELETED'}
     index_done: dict[str, float] = {}
     for c in ix.calls:
-        if c['kind'] == 'index' and c['inc'] == inc and c['seq'] in ix.rets:
+        # only the indexing of the LISTED state counts (an object matching no index filter at the listing is never indexed then)
+        if c['kind'] == 'index' and c['inc'] == inc and c['seq'] in ix.rets and c['uid'] in w.history \
+                and int(c['rv']) <= list_rv.get(w.history[c['uid']][0]['plural'], -1):
             index_done.setdefault(c['uid'], ix.rets[c['seq']]['t'])
     for pl, uids in listed.items():
         for uid in uids:
